@@ -204,3 +204,64 @@ func VerifC12_RepeatedCompactions() {
 	h.hProbeKey(1)
 	vsym.Reach("done")
 }
+
+// VerifC12_MarkerOutlivesUnrelatedCompaction: both keys sit two levels down; one of them is deleted and the marker
+// is compacted into level 1 (together with a write of the other key); optionally the engine restarts (whatever it
+// remembered about deletes is gone); then two more tables that touch only the OTHER key are flushed and compacted,
+// which rewrites the level-1 table holding the marker. The deleted key must stay deleted - in the running engine and
+// after the logs are retired and the database is reopened - for as long as its old version exists further down.
+func VerifC12_MarkerOutlivesUnrelatedCompaction() {
+	h := &hEnv{maxMem: 2}
+	h.hKeys(2)
+	h.hOpen(true, false)
+	d := vsym.IntRange("deleted", 0, 1) // the key that is deleted; the other one keeps being written
+	o := 1 - d
+	// two levels down: both keys in one table, or only the key that will be deleted (a table whose key range does
+	// not reach the other key)
+	if vsym.IntRange("deepBoth", 0, 1) == 1 {
+		h.hDeepPrelude(2)
+	} else {
+		v := vsym.Bytes("pv", 1)
+		vsym.Assert(h.e.Put(h.K[d], v) == nil, "Put failed")
+		h.present[d], h.val[d] = true, v
+		vsym.Assert(h.e.FlushImMemTables() == nil, "Flush failed")
+		for l := 0; l < 2; l++ {
+			vsym.Assert(h.e.CompactRange(h.K[0], h.K[1]) == nil, "CompactRange failed")
+		}
+		h.dirty = false
+	}
+	put := func(ki int) {
+		v := vsym.Bytes("v", 1)
+		vsym.Assert(h.e.Put(h.K[ki], v) == nil, "Put failed")
+		h.present[ki], h.val[ki] = true, v
+		vsym.Assert(h.e.FlushImMemTables() == nil, "Flush failed")
+	}
+	vsym.Assert(h.e.Delete(h.K[d]) == nil, "Delete failed")
+	h.present[d] = false
+	vsym.Assert(h.e.FlushImMemTables() == nil, "Flush failed")
+	put(o)
+	vsym.Assert(h.e.TriggerCompaction() == nil, "TriggerCompaction failed")
+	h.hProbeKey(0)
+	h.hProbeKey(1)
+	if vsym.IntRange("restart", 0, 1) == 1 {
+		vsym.Assert(h.e.Close() == nil, "Close failed")
+		h.retireLogs()
+		h.hOpen(false, false)
+		h.hProbeKey(0)
+		h.hProbeKey(1)
+	}
+	rounds := vsym.IntRange("rounds", 1, 2)
+	for r := 0; r < rounds; r++ {
+		put(o)
+		put(o)
+		vsym.Assert(h.e.TriggerCompaction() == nil, "TriggerCompaction failed")
+		h.hProbeKey(0)
+		h.hProbeKey(1)
+	}
+	vsym.Assert(h.e.Close() == nil, "Close failed")
+	h.retireLogs()
+	h.hOpen(false, false)
+	h.hProbeKey(0)
+	h.hProbeKey(1)
+	vsym.Reach("done")
+}
